@@ -29,7 +29,7 @@ SKELETONS = [
     dict(name="dollar-homo", text="C{[$][$]CC[$][$]}|gauss(50,5)|O", closed=True),
     dict(name="star-three-descriptors", text="{[][$]CC([$])C[$]; [$][H][]}|gauss(60,5)|", closed=True, N=(1, 2)),
     dict(name="graft-ids", text="{[][<]CC([<1|0|])[>]; [<]O, [>]N, [>1]F[]}|gauss(50,5)|", closed=True),
-    dict(name="transition-lists", text="{[][$|3 4 5 6 0 8|]C([$|4.0|])C=O,[$|6.0|]CC([$|10.1|])CO;[$][H], [$]O[]}|flory_schulz(9e-4)|", closed=True),
+    dict(name="transition-lists", text="{[][$|3 4 5 6 0 8|]C([$|4.0|])C=O,[$|6.0|]CC([$|10.1|])CO;[$][H], [$]O[]}|flory_schulz(9e-4)|", closed=True, shard=[2, 1, 6]),
     dict(name="left-terminal-list", text="N{[<|0 2 0 1|][<]CC[>], [<]CO[>][>]}|gauss(50,5)|O", closed=True),
     dict(name="aromatic-charged-bracket", text="[H]{[>][<]CC([>])c1ccccc1, [<]C[N+](C)(C)[>], [<][Si]C[>][<]}|gauss(150,5)|[O-]", closed=True),
     dict(name="list-carrying-handover", text="N{[<][<|0 1|]CC[>][>]}|gauss(60,5)|{[<][<]CO[>], [<]CN[>][>]}|gauss(60,5)|F", closed=True),
@@ -734,7 +734,7 @@ def apply_role_values(gen, mol, values):
             bd.weight = float(v)
 
 
-def symbolic_path(c, g, skel, N, enabled, weight_mode="symbolic", extra=None):
+def symbolic_path(c, g, skel, N, enabled, weight_mode="symbolic", extra=None, forced=None):
     from symx import gen
     from symx.rng import SymRng
 
@@ -757,7 +757,7 @@ def symbolic_path(c, g, skel, N, enabled, weight_mode="symbolic", extra=None):
 
     prover = SymProver(c, enabled, detail)
     oracle = Oracle(g, mol, prover, nmax=N)
-    rng = SymRng(on_choice=oracle.on_choice)
+    rng = SymRng(on_choice=oracle.on_choice, forced=forced)
     state["rng"] = rng
     gen.OBS[0] = obs
     result, exc = None, None
@@ -863,7 +863,14 @@ def gen_cases(tier, nq=2, nt=3, names=None):
         N = nq if tier == "quick" else nt
         if "N" in s:
             N = s["N"][0] if tier == "quick" else s["N"][1]
-        out.append({"name": f"{s['name']}/N{N}", "skeleton": s, "N": N})
+        if s.get("shard"):
+            # heavy skeleton: one shard per combination of the first random picks (the shards partition the paths)
+            import itertools
+
+            for f in itertools.product(*[range(n) for n in s["shard"]]):
+                out.append({"name": f"{s['name']}/N{N}/picks{''.join(map(str, f))}", "skeleton": s, "N": N, "forced": list(f)})
+        else:
+            out.append({"name": f"{s['name']}/N{N}", "skeleton": s, "N": N})
     return out
 
 
@@ -873,7 +880,7 @@ def run_gen_case(case, g, tier, res, prop, enabled, budget_s=None, extra=None):
     skel, N = case["skeleton"], case["N"]
 
     def h(c):
-        return symbolic_path(c, g, skel, N, enabled, extra=extra)
+        return symbolic_path(c, g, skel, N, enabled, extra=extra, forced=case.get("forced"))
 
     stats, cexs, complete = explore_case(res, h, tier, on_path=collector(res, prop), budget_s=budget_s)
     # exceptions on paths are part of the verdict of C06 (closed skeletons); elsewhere they are recorded
